@@ -30,6 +30,24 @@ func (m *Machine) hashModel(name string, outLen int, in []*smt.Term, native func
 		}
 	}
 	var out []*smt.Term
+	prev, _ := m.userData["hash:"+name].([]hashCall)
+	if !conc {
+		// the very same argument terms: the same digest (functional), no new variables
+		for _, c := range prev {
+			if len(c.in) == len(in) {
+				same := true
+				for i := range in {
+					if c.in[i] != in[i] {
+						same = false
+						break
+					}
+				}
+				if same {
+					return c.out
+				}
+			}
+		}
+	}
 	if conc {
 		raw := make([]byte, len(in))
 		for i, b := range in {
@@ -45,9 +63,12 @@ func (m *Machine) hashModel(name string, outLen int, in []*smt.Term, native func
 		out = make([]*smt.Term, outLen)
 		n, _ := m.userData["hash.n"].(int)
 		m.userData["hash.n"] = n + 1
+		nz := F.BoolC(false)
 		for i := range out {
 			out[i] = F.Var(fmt.Sprintf("h%d_%s_%d", n, sanitizeName(name), i), smt.BV(8))
+			nz = F.Or(nz, F.Not(F.Eq(out[i], F.BVC(8, 0))))
 		}
+		m.addPC(nz) // a digest is never all-zero (assumed, like collision freeness)
 	}
 	calls, _ := m.userData["hash:"+name].([]hashCall)
 	if !conc {
